@@ -296,6 +296,10 @@ pub trait Sub: Sync {
     fn check(&self, case: &Self::Case, ctx: &mut Ctx) -> Result<(), String>;
     /// How cases are generated and what makes one non-trivial.
     fn rule(&self) -> String;
+    /// Shrink budget (expensive checks lower it).
+    fn max_shrink_iters(&self) -> u32 {
+        3000
+    }
 }
 
 #[derive(Serialize, serde::Deserialize)]
@@ -366,7 +370,7 @@ pub fn run_sub<S: Sub>(s: &S, opts: &Opts, total_cases: u32, report: &mut Report
                 let config = Config {
                     cases: per_shard,
                     failure_persistence: None,
-                    max_shrink_iters: 20_000,
+                    max_shrink_iters: s.max_shrink_iters(),
                     max_global_rejects: 1_000_000,
                     ..Config::default()
                 };
